@@ -123,6 +123,8 @@ def run_one(seed, tier, explicit=None):
     H = ['0', '1', '2', str(prng.randint(3, 10 ** 6)), str(prng.randint(3, 10 ** 6))]
     if tier == 'thorough':
         H += [str(prng.randint(3, 10 ** 6)) for _ in range(11)]
+    if mode == 'light':
+        H = H[:3]
     order = ['fr'[i % 2] for i in range(len(H))]
     if explicit:
         H, order = explicit['hash_seeds'], explicit['orders']
